@@ -19,16 +19,28 @@
 //   read <key>                        => ok|notfound|deleted|novol|err
 //   compact <1|2>                     => ok|novol|err
 //   hb                                => listed|expired|deleted|novol
+// Filer part (a REAL filer.Filer over the leveldb store in a temp dir; Crtime/Mtime are set explicitly in the past):
+//   resetf                            => ok
+//   fput <key> <ttlSec> <crAge> <mAge>=> ok|err      CreateEntry of /c9/e<key>; an existing visible entry is
+//                                                   appended to the way the filer's append handler does (old chunks kept + one new chunk)
+//   ffind <key>                       => visible <ttlSec> <nchunks> | notfound | err
+//   flist                             => <visible keys, sorted, comma separated | ->
 package main
 
 import (
+	"context"
 	"encoding/binary"
+	"sort"
+	"strings"
 	"fmt"
 	"os"
 	"path/filepath"
 	"strconv"
 	"time"
 
+	"github.com/chrislusf/seaweedfs/weed/filer"
+	"github.com/chrislusf/seaweedfs/weed/filer/leveldb"
+	"github.com/chrislusf/seaweedfs/weed/pb/filer_pb"
 	"github.com/chrislusf/seaweedfs/weed/storage"
 	"github.com/chrislusf/seaweedfs/weed/storage/needle"
 	"github.com/chrislusf/seaweedfs/weed/storage/super_block"
@@ -81,6 +93,35 @@ func (c *collectScanner) VisitNeedle(n *needle.Needle, offset int64, h, b []byte
 	return nil
 }
 
+type conf map[string]string
+
+func (c conf) GetString(k string) string      { return c[k] }
+func (c conf) GetBool(string) bool            { return false }
+func (c conf) GetInt(string) int              { return 0 }
+func (c conf) GetStringSlice(string) []string { return nil }
+func (c conf) SetDefault(string, interface{}) {}
+
+var (
+	theFiler *filer.Filer
+	fKeys    = map[int64]bool{}
+	fctx     = context.Background()
+	chunkSeq uint64
+)
+
+func fpath(key int64) util.FullPath { return util.FullPath(fmt.Sprintf("/c9/e%06d", key)) }
+
+func getFiler() *filer.Filer {
+	if theFiler == nil {
+		st := &leveldb.LevelDBStore{}
+		if err := st.Initialize(conf{"x.dir": filepath.Join(tmpRoot, "filerldb")}, "x."); err != nil {
+			panic(err)
+		}
+		theFiler = filer.NewFiler(nil, nil, "", 0, "", "", "", nil)
+		theFiler.SetStore(st)
+	}
+	return theFiler
+}
+
 func sec2ttl(s int32) {
 	tr.Op("sec2ttl", []string{hx.I(int64(s))}, hx.Guard(func() []string {
 		str := needle.SecondsToTTL(s)
@@ -104,6 +145,69 @@ func exec(op []string) {
 	switch op[0] {
 	case "sec2ttl":
 		sec2ttl(int32(pi(1)))
+	case "resetf":
+		tr.Op("resetf", args, hx.Guard(func() []string {
+			f := getFiler()
+			for k := range fKeys {
+				f.Store.DeleteEntry(fctx, fpath(k))
+			}
+			fKeys = map[int64]bool{}
+			return []string{"ok"}
+		}))
+	case "fput":
+		tr.Op("fput", args, hx.Guard(func() []string {
+			f := getFiler()
+			key, ttlSec, crAge, mAge := pi(1), pi(2), pi(3), pi(4)
+			now := time.Now()
+			chunkSeq++
+			chunk := &filer_pb.FileChunk{FileId: fmt.Sprintf("3,%x00000001", chunkSeq+16), Offset: 0, Size: 10, Mtime: now.UnixNano()}
+			e := &filer.Entry{FullPath: fpath(key), Attr: filer.Attr{
+				Mtime: now.Add(-time.Duration(mAge) * time.Second), Crtime: now.Add(-time.Duration(crAge) * time.Second),
+				Mode: 0644, TtlSec: int32(ttlSec), FileSize: 10}}
+			if old, err := f.FindEntry(fctx, fpath(key)); err == nil && old != nil {
+				e.Chunks = append(e.Chunks, old.Chunks...)
+				chunk.Offset = int64(10 * len(old.Chunks))
+				e.FileSize = uint64(10 * (len(old.Chunks) + 1))
+			}
+			e.Chunks = append(e.Chunks, chunk)
+			fKeys[key] = true
+			if err := f.CreateEntry(fctx, e, false, false, nil); err != nil {
+				return []string{"err"}
+			}
+			return []string{"ok"}
+		}))
+	case "ffind":
+		tr.Op("ffind", args, hx.Guard(func() []string {
+			e, err := getFiler().FindEntry(fctx, fpath(pi(1)))
+			if err == filer_pb.ErrNotFound || (err == nil && e == nil) {
+				return []string{"notfound"}
+			}
+			if err != nil {
+				return []string{"err"}
+			}
+			return []string{"visible", hx.I(int64(e.TtlSec)), hx.I(int64(len(e.Chunks)))}
+		}))
+	case "flist":
+		tr.Op("flist", args, hx.Guard(func() []string {
+			es, _, err := getFiler().ListDirectoryEntries(fctx, util.FullPath("/c9"), "", false, 100000, "", "", "")
+			if err != nil {
+				return []string{"err"}
+			}
+			var ks []int
+			for _, e := range es {
+				k, _ := strconv.Atoi(strings.TrimLeft(strings.TrimPrefix(e.Name(), "e"), "0"))
+				ks = append(ks, k)
+			}
+			sort.Ints(ks)
+			var names []string
+			for _, k := range ks {
+				names = append(names, strconv.Itoa(k))
+			}
+			if len(names) == 0 {
+				return []string{"-"}
+			}
+			return []string{strings.Join(names, ",")}
+		}))
 	case "reset":
 		closeCase()
 		tr.Op("reset", args, hx.Guard(func() []string {
@@ -453,7 +557,7 @@ func main() {
 	tr.Comment(fmt.Sprintf("c09 seed=%d tier=%s", a.Seed, a.Tier))
 	if a.Ops != "" {
 		for _, op := range hx.ReadOps(a.Ops) {
-			if op[0] != "sec2ttl" && op[0] != "reset" && cs == nil {
+			if op[0] != "sec2ttl" && op[0] != "reset" && op[0] != "resetf" && op[0][0] != 'f' && cs == nil {
 				continue
 			}
 			exec(op)
@@ -484,6 +588,78 @@ func main() {
 	}
 	for i := 0; i < a.N(2000); i++ {
 		sec2ttl(int32(r.U64() >> uint(33+r.Intn(31))))
+	}
+
+	// ---- filer part: entries with explicit Crtime/Mtime in the past; create, update-after-create, find, list
+	fttls := []int64{0, 0, 60, 90, 300, 600, 3600, 7200, 86400, 100000, 2592000}
+	fage := func(ttl int64) int64 {
+		for {
+			var a int64
+			switch r.Intn(6) {
+			case 0:
+				a = 0
+			case 1:
+				a = ttl / 2
+			case 2:
+				a = ttl - 121 - int64(r.Intn(300))
+			case 3, 4:
+				a = ttl + 121 + int64(r.Intn(300))
+			case 5:
+				a = int64(r.Intn(200000))
+			}
+			if a >= 0 && (ttl == 0 || farFrom(a, ttl)) {
+				return a
+			}
+		}
+	}
+	fkey := int64(0)
+	for i := 0; i < a.N(120); i++ {
+		exec([]string{"resetf"})
+		var keys []int64
+		crOf := map[int64]int64{}
+		n := 1 + r.Intn(4)
+		for j := 0; j < n; j++ {
+			fkey++
+			keys = append(keys, fkey)
+			ttl := fttls[r.Intn(len(fttls))]
+			cr := fage(ttl)
+			m := cr
+			if r.Bool() { // modified later than created (or a client-supplied older mtime)
+				m = fage(ttl)
+			}
+			crOf[fkey] = cr
+			exec([]string{"fput", hx.I(fkey), hx.I(ttl), hx.I(cr), hx.I(m)})
+		}
+		if r.Bool() {
+			exec([]string{"flist"})
+		}
+		// updates after create: append / touch with a fresh Mtime, possibly another TtlSec
+		for _, k := range keys {
+			if r.Chance(2, 3) {
+				// crAge of an update is ignored when the entry is still visible (UpdateEntry keeps the old Crtime):
+				// the new TtlSec must be off the edge for the old AND the new Crtime
+				ttl := fttls[r.Intn(len(fttls))]
+				for ttl != 0 && !farFrom(crOf[k], ttl) {
+					ttl = fttls[r.Intn(len(fttls))]
+				}
+				mAge := int64(0)
+				if r.Chance(1, 4) {
+					mAge = fage(ttl)
+				}
+				ncr := fage(ttl)
+				exec([]string{"fput", hx.I(k), hx.I(ttl), hx.I(ncr), hx.I(mAge)})
+				if ncr < crOf[k] {
+					crOf[k] = ncr // conservative: whichever incarnation is in effect, later TTLs avoid both edges
+				}
+			}
+			if r.Bool() {
+				exec([]string{"ffind", hx.I(k)})
+			}
+		}
+		exec([]string{"flist"})
+		for _, k := range keys {
+			exec([]string{"ffind", hx.I(k)})
+		}
 	}
 
 	// ---- storage part
